@@ -14,8 +14,9 @@ def prop(pid, title, level, units, clauses, explanation, statement_clauses=None,
 
 
 prop("C16", "rustfmt never terminates abnormally", "other",
-     ["U01", "U02", "U03", "U06", {"unit": "U04", "only": r"does not panic|FormatReportFormatter"}, {"unit": "U07", "only": r"does not panic"}, {"unit": "U09", "only": r"does not panic|push_vertical_spaces_clamp_contract"}, "U28", {"unit": "U18", "only": r"does not panic"}, {"unit": "U30", "only": r"^format_snippet|^format_code_block|^rewrite_macro"}],
-     [{"clause": "no arithmetic panic (overflow) in Range::{new,is_empty,contains,intersects,adjacent_to,merge} for any usize", "status": "proved", "by": "U01 (Verus)"},
+     ["U01", "U02", "U03", "U06", {"unit": "U04", "only": r"does not panic|FormatReportFormatter"}, {"unit": "U07", "only": r"does not panic"}, {"unit": "U09", "only": r"does not panic|push_vertical_spaces_clamp_contract"}, "U28", {"unit": "U18", "only": r"does not panic"}, {"unit": "U30", "only": r"^format_snippet|^format_code_block|^rewrite_macro"}, {"unit": "U32", "only": r"does not panic"}],
+     [{"clause": "rewrite_comment / rewrite_string / break_string do not panic (slicing at char boundaries, width arithmetic) on the enumerated comments and options, nor on their own output", "status": "bounded", "by": "U32"},
+      {"clause": "no arithmetic panic (overflow) in Range::{new,is_empty,contains,intersects,adjacent_to,merge} for any usize", "status": "proved", "by": "U01 (Verus)"},
       {"clause": "no arithmetic panic in FormatLines::{new_line,char,push_err,should_report_error} and the fold (line_len -= 1 never underflows: invariant last_was_space => line_len >= 1) for texts of any length, tab_spaces >= 1", "status": "proved", "by": "U03 (Verus)"},
       {"clause": "no overflow / division by zero in Indent and Shape arithmetic under wf (fields <= 2^32, tab_spaces >= 1); every *_opt turns 'does not fit' into None (is_none <=> delta > width)", "status": "proved", "by": "U06 (Verus; Kani for mut-self fns and the Option::map payloads)"},
       {"clause": "no arithmetic overflow in the blank-line clamp of push_vertical_spaces for any accepted blank_lines_upper_bound / blank_lines_lower_bound (found F31: usize::MAX panicked; fixed d8db3ac)", "status": "proved", "by": "U09 (Kani, full usize domain)"},
@@ -210,8 +211,9 @@ prop("C13", "Exactly the reachable, non-excluded files are formatted, each once"
      statement_clauses={"U23": "Each such file is formatted once ..., except modules or files that are skipped, matched by `ignore`, marked @generated ..., or any child when skip_children is set or the input is standard input"})
 
 prop("C01", "Formatting preserves the meaning of the program", "other",
-     ["U18"],
-     [{"clause": "no keyword is added, dropped or altered at the leaves that spell modifiers: format_coro/constness/constness_right/defaultness/safety/auto/mutability map every variant to its own keyword(s) + one blank, the absent modifier to the empty string, no two modifiers to the same text", "status": "proved", "by": "U18 (Kani, complete over shim enums with exactly the variants the exhaustive matches name) + native re-check on the REAL rustc_ast enums"},
+     ["U18", {"unit": "U14", "only": r"never adds or renames an import|never loses an import"}],
+     [{"clause": "the declared normalisations of imports (merging, flattening, regrouping) neither add, drop nor rename an import and keep its visibility and attributes", "status": "bounded", "by": "U14 (see C10; the import-loss classes K1, K2, K5, K6 are known findings here too)"},
+      {"clause": "no keyword is added, dropped or altered at the leaves that spell modifiers: format_coro/constness/constness_right/defaultness/safety/auto/mutability map every variant to its own keyword(s) + one blank, the absent modifier to the empty string, no two modifiers to the same text", "status": "proved", "by": "U18 (Kani, complete over shim enums with exactly the variants the exhaustive matches name) + native re-check on the REAL rustc_ast enums"},
       {"clause": "explicit extern ABI: `extern \"C\"` is added/removed only as the option dictates; any other ABI is emitted as one string literal with the same value", "status": "bounded", "by": "U18 native (14 ABI spellings x explicit_abi, real ast::Extern)"},
       {"clause": "restricted visibility spelling (format_visibility on real ast::Visibility, 15 paths)", "status": "bounded", "by": "U18 native"},
       {"clause": "literal-spelling rewrites keep the literal's kind, suffix and value (hex_literal_case, float_literal_trailing_zero); Preserve leaves the spelling untouched; a second pass changes nothing", "status": "bounded", "by": "U18 native (20 integer spellings, float grid x all settings; oracle: rustc_lexer + numeric parse)"},
@@ -219,7 +221,7 @@ prop("C01", "Formatting preserves the meaning of the program", "other",
       {"clause": "every rewriter re-emits every field of its AST node; fallback to the source on a failed rewrite; missed-span copying; parenthesis / arm / closure normalisations; rewrite_string", "status": "not_decided", "by": "- (the property's bulk: no contract within reach expresses token preservation of format_expr(e) without a model of rustc_ast)"}],
      "Only the leaves are within reach: the functions that spell keywords, ABIs, visibilities and literals, and the metavariable substitution. They are loop-free tables (Kani, complete) or small string functions (bounded-exhaustive against rustc_lexer). "
      "That the ~20 kLoC of rewriters preserve the token sequence is not decided by this technique.",
-     statement_clauses={"U18": "No identifier, literal, operator, keyword, lifetime, visibility, attribute or doc comment is otherwise added, dropped, reordered or altered, inside macro invocations and macro definitions as well as in ordinary code"})
+     statement_clauses={"U18": "No identifier, literal, operator, keyword, lifetime, visibility, attribute or doc comment is otherwise added, dropped, reordered or altered, inside macro invocations and macro definitions as well as in ordinary code", "U14": "up to the declared normalisations (... merging of imports ...): no ... visibility ... is otherwise added, dropped ... or altered"})
 
 prop("C04", "Skip-marked code and opted-out files are emitted verbatim", "other",
      ["U17", "U24", "U29"],
@@ -234,20 +236,23 @@ prop("C04", "Skip-marked code and opted-out files are emitted verbatim", "other"
      statement_clauses={"U17": "A file that opts out as a whole (inner skip attribute, disable_all_formatting, an ignore match, or an @generated marker when generated files are excluded) is neither changed nor reported as differing", "U24": "appear in the output with their original bytes", "U29": "carrying #[rustfmt::skip] (directly or via cfg_attr, or the deprecated rustfmt_skip)"})
 
 prop("C03", "Comments are never silently dropped", "other",
-     ["U10", "U11"],
+     ["U10", "U11", {"unit": "U32", "only": r"sequence of words|comes out with the same text|ends at its own|does not panic$"}],
      [{"clause": "comment/code segmentation agrees with the Rust lexer: CharClasses yields every char once in order; the bytes classified as comment are exactly rustc_lexer's comment tokens (plus the newline ending a line comment); string bytes lie inside string tokens", "status": "bounded", "by": "U10 (all strings <= 6/7 over 10 characters that rustc lexes, + three deeper sub-domains) — KNOWN FINDINGS: nested /* after a quote inside a block comment; r in the middle of a token"},
       {"clause": "CommentCodeSlices / UngroupedCommentCodeSlices / LineClasses partition the text (every byte handed out once, comment bytes in comment slices)", "status": "bounded", "by": "U10"},
       {"clause": "the safety net: changed_comment_content(s,s) is false; it is false only if the non-blank comment characters are equal; re-indentation raises no false alarm; recover_comment_removed keeps the source snippet (and reports exactly one LostComment under error_on_unformatted) whenever the comment payload differs", "status": "bounded", "by": "U11 (all pairs of lexable texts <= 5/6 over 6 characters, + block-comment bodies, + multi-comment texts) — KNOWN FINDING: //// and /*** openers"},
-      {"clause": "list machinery (extract_pre_comment / write_list), close_block, rewrite_comment word preservation under wrap_comments / normalize_comments, 'exactly once'", "status": "not_decided", "by": "- (2 kLoC of string code over Config/Shape/unicode tables)"}],
+      {"clause": "rewrite_comment / rewrite_doc_comment keep the sequence of words of every comment under every combination of wrap_comments x normalize_comments x comment_width x indent x block_style (comment tokens delimited by rustc_lexer); with both options off every comment keeps its text line by line; two comments in a row stay two comments", "status": "bounded", "by": "U32 (17278 comment arrangements over a 10-word vocabulary x 5 comment styles + 6084 two-comment texts x 48 option combinations; KNOWN FINDING K_SAMELINE; the later-line variant was repaired: 0872bcc)"},
+      {"clause": "list machinery (extract_pre_comment / write_list), close_block, 'exactly once'", "status": "not_decided", "by": "- (2 kLoC of string code over Config/Shape/unicode tables)"}],
      "Decided are the two mechanisms everything else leans on: the lexical segmentation into code and comments (against the real rustc_lexer) and the lost-comment safety net. Both are string walkers outside Verus/Kani, hence bounded-exhaustive. "
      "The placement of comments by the list and block rewriters is not decided.",
-     statement_clauses={"U10": "Every non-doc comment of the input ... reappears in the output with the same text", "U11": "If rustfmt cannot place such a comment it leaves the enclosing statement as written rather than losing it"})
+     statement_clauses={"U32": "reappears in the output with the same text up to re-indentation and, only under wrap_comments / normalize_comments, re-wrapping and marker normalisation", "U10": "Every non-doc comment of the input ... reappears in the output with the same text", "U11": "If rustfmt cannot place such a comment it leaves the enclosing statement as written rather than losing it"})
 
 IDEM = r"idempot|again|twice|second pass|rewriting the result"
 prop("C02", "Formatting is idempotent", "other",
      [{"unit": "U08", "only": IDEM}, {"unit": "U02", "only": IDEM}, {"unit": "U09", "only": IDEM + r"|at most blank_lines_upper_bound|pushed == clamp"}, {"unit": "U10", "only": IDEM}, {"unit": "U18", "only": IDEM},
-      {"unit": "U04", "only": r"^format_lines: trailing newline"}, {"unit": "U14", "only": IDEM + r"|second time"}],
-     [{"clause": "newline-style conversion is a fixed point (Unix and Windows converters idempotent)", "status": "bounded", "by": "U08"},
+      {"unit": "U04", "only": r"^format_lines: trailing newline"}, {"unit": "U14", "only": IDEM + r"|second time"},
+      {"unit": "U32", "only": r"second pass|go in one pass|code fence|table row|inside a code block|own output"}],
+     [{"clause": "comment rewriting is a fixed point: rewrite_comment applied to its own output changes nothing, for every option combination", "status": "bounded", "by": "U32 (same domain as C03; SIX KNOWN FINDINGS: K_TAIL, K_TRAIL, K_FENCE, K_CODEBLANK, K_TABLE, K_BLOCKGAP - all need wrap_comments or normalize_comments)"},
+      {"clause": "newline-style conversion is a fixed point (Unix and Windows converters idempotent)", "status": "bounded", "by": "U08"},
       {"clause": "the blank-line clamp is a fixed point: the first pass already lands inside [lower, upper] (exact clamp law), so a second pass finds nothing to clamp; a second push with nothing new pushes nothing", "status": "bounded", "by": "U09"},
       {"clause": "trailing-newline truncation leaves exactly one terminator (a second pass finds nothing to truncate)", "status": "bounded", "by": "U04"},
       {"clause": "remove_trailing_white_spaces and trim_left_preserve_layout are idempotent", "status": "bounded", "by": "U10"},
@@ -256,7 +261,7 @@ prop("C02", "Formatting is idempotent", "other",
       {"clause": "import normalisation is idempotent; regrouping (normalize, regroup by granularity, sort) a second time changes nothing", "status": "bounded", "by": "U14 — KNOWN FINDINGS K1, K2, K4, K5, K6, K7 (imports_granularity)"},
       {"clause": "whole-program idempotence: format(format(x)) == format(x) for every source (layout thresholds inside the rewriters agreeing with themselves on their own output)", "status": "not_decided", "by": "- (no contract on one function expresses it; it is a statement about the composition of all rewriters)"}],
      "Whole-program idempotence is not decided by this technique. What is decided are the fixed-point clauses of the mechanisms the anchors name as being 'themselves fixed points', each as the postcondition f(f(x)) == f(x) on the real function, bounded-exhaustively.",
-     statement_clauses={"U08": "a second run rewrites no file", "U09": "a second run rewrites no file", "U10": "a second run rewrites no file", "U18": "a second run rewrites no file", "U02": "a second run rewrites no file", "U04": "a second run rewrites no file", "U14": "a second run rewrites no file"})
+     statement_clauses={"U08": "a second run rewrites no file", "U09": "a second run rewrites no file", "U10": "a second run rewrites no file", "U18": "a second run rewrites no file", "U02": "a second run rewrites no file", "U04": "a second run rewrites no file", "U14": "a second run rewrites no file", "U32": "comment rewriting ... must be stable under re-application"})
 
 prop("C10", "Import rewriting preserves what is imported", "exploration",
      ["U14"],
@@ -289,10 +294,10 @@ T_B = "bounded-exhaustive contract checking of the natively compiled real functi
 MANIFEST_TEXT = {
     "C01": {"text": "Only the leaves: modifier keyword tables proved complete with Kani (and re-checked on the real rustc_ast enums), extern ABI / visibility / literal re-spelling / macro metavariable substitution checked bounded-exhaustively against rustc_lexer. Token preservation by the rewriters (the bulk of C01) is NOT decided.",
             "note": "shim enums mirror rustc_ast variants (a missing variant would not compile); RewriteContext/Shape shims for the literal functions; one recorded known finding (placeholder collisions)", "technique": T_K + " + " + T_B},
-    "C02": {"text": "Whole-program idempotence is NOT decided. Decided, bounded-exhaustively, are the fixed-point postconditions f(f(x)) == f(x) of the mechanisms the anchors call fixed points: newline conversion, blank-line clamp, trailing-newline truncation, trailing-blank removal, literal re-spelling, range normalisation (imports when U13/U14 are integrated).",
+    "C02": {"text": "Whole-program idempotence is NOT decided. Decided, bounded-exhaustively, are the fixed-point postconditions f(f(x)) == f(x) of the mechanisms the anchors call fixed points: newline conversion, blank-line clamp, trailing-newline truncation, trailing-blank removal, literal re-spelling, range normalisation, import normalisation/merging (U14), comment rewriting (U32: six known findings, all under wrap_comments / normalize_comments).",
             "note": "each obligation is a clause of another unit re-used under C02 by an obligation filter; the composition of rewriters is unverified surroundings", "technique": T_B},
-    "C03": {"text": "Bounded-exhaustive contract checks of the comment/code segmentation (CharClasses, *CodeSlices, LineClasses) against the real rustc_lexer and of the lost-comment safety net (changed_comment_content, CommentReducer, recover_comment_removed). Comment placement by the list/block rewriters and comment re-wrapping are NOT decided.",
-            "note": "rustc_lexer is the reference; RewriteContext/ParseSess shims for recover_comment_removed; three recorded known findings", "technique": T_B},
+    "C03": {"text": "Bounded-exhaustive contract checks of the comment/code segmentation (CharClasses, *CodeSlices, LineClasses) against the real rustc_lexer and of the lost-comment safety net (changed_comment_content, CommentReducer, recover_comment_removed). Comment re-wrapping / normalisation (the real rewrite_comment) keeps the word sequence of every comment on a stated domain (U32). Comment placement by the list/block rewriters is NOT decided.",
+            "note": "rustc_lexer is the reference; RewriteContext/ParseSess shims for recover_comment_removed; recorded known findings (U10, U11, U32)", "technique": T_B},
     "C04": {"text": "Opt-out decision table proved (Kani, complete) and exercised end-to-end through the real format_project on recording shims; @generated search limit, skip-name scoping and the recorded skipped-line range enumerated. Per-node verbatim copying in the rewriters is NOT decided.",
             "note": "Parser / ModResolver / emitter are recording shims; contains_skip is a harness-chosen bit; one recorded known finding (stdin + @generated, pinned by an existing test)", "technique": T_K + " + " + T_B},
     "C05": {"text": "Exit-status and error-folding clauses proved (Kani, complete) on the extracted statements of bin/main.rs and Session; 'a file is only replaced by its complete formatted text, only if it differs' enumerated on the real FilesEmitter against a recording FS model. That every input fault is detected before the first write is NOT decided.",
